@@ -229,3 +229,20 @@ PLAN["C15"] = {
 PLAN["C18"]["units"] = PLAN["C18"]["units"] + SERVE_UNITS + [AW + "WorkerContext.__init__", TW + "WorkerContext.__init__"]
 PLAN["C18"]["trusted_base"] = PLAN["C18"]["trusted_base"] + LIB_SERVE
 PLAN["C18"]["explanation"] += "; worker_serve gives the worker a request budget of max_requests + randint(0, max_requests_jitter) (C18.jitter: between max_requests and max_requests + max_requests_jitter, None iff max_requests is None)"
+
+WW = "hypercorn.app_wrappers:WSGIWrapper."
+PLAN["C17"] = {
+    "units": [WW + "__call__", WW + "handle_http", WW + "run_app", "hypercorn.app_wrappers:_build_environ",
+              "hypercorn.middleware.wsgi:AsyncioWSGIMiddleware.__call__", "hypercorn.middleware.wsgi:TrioWSGIMiddleware.__call__",
+              ATG + "TaskGroup.spawn_app", TTG + "TaskGroup.spawn_app", ATG + "_handle", TTG + "_handle"],
+    "trusted_base": ["assumed contract for a PEP 3333 application (pyvc/models_wsgi.py): it calls start_response eagerly, lazily (when its result is first iterated) or never; its result is an iterable of byte strings with or without close()",
+                     "assumed contract for asyncio.run_coroutine_threadsafe / Future.result (result() blocks until the coroutine has run on the loop); trio.to_thread.run_sync / trio.from_thread.run are trusted as documented",
+                     "dicts with keys computed at run time: association-list semantics over z3 strings (pyvc/heap.py); '%s' formatting of one string is concatenation; str.replace is an uninterpreted function of its arguments"] + LIB_RT,
+    "assumptions": COMMON_ASSUME + ["root_path, path and query_string are ASCII (the utf-8 -> latin-1 transcoding of PEP 3333 is the identity there, uninterpreted otherwise)",
+                                    "the receive callable delivers http.request messages as the server builds them (body: bytes, more_body: bool)",
+                                    "'HTTP_* variables with repeated headers comma-joined' is proved as the per-header step (set, or append ',' + value when present); the fold over the whole header list is its induction, not stated as one clause",
+                                    "'off the event loop' is decided as: the application is only reachable through run_app, and run_app is only handed to sync_spawn"],
+    "explanation": "WSGIWrapper: websocket scopes are refused, http scopes handled, lifespan ignored; handle_http answers 400 without spawning anything when the body exceeds wsgi_max_body_size, otherwise spawns run_app exactly once (through sync_spawn, with the environ built from the request) and ends the response with one empty final body; run_app calls the application once, sends exactly one http.response.start (status and lower-cased latin-1 headers of start_response) with the first chunk -- also when start_response is only called during iteration --, one body message per chunk unchanged and in order, gives up with RuntimeError only for an application that never calls start_response, and closes the iterable exactly once on every path; _build_environ: request-line variables, PATH_INFO/SCRIPT_NAME split by root_path (never empty), wsgi.input holds exactly the body, per-header comma-join step; the thread-to-loop bridges wait for the send to complete",
+    "level_text": "Postconditions, loop clauses and exceptional postconditions proved for all messages, bodies, header lists, application start modes and chunk sequences.",
+    "level_note": "Trusted: pyvc encoder, WSGI application model, bridge model. The defect found by these obligations (lazily starting applications failed and were not closed) is fixed in /repo (8c281e3).",
+}
